@@ -121,6 +121,35 @@ class TM:
                 m = m.with_chars(chars)
         return m
 
+    def stylize_before(self, style, start, end):
+        """Like stylize(), but the style goes UNDER the styles the characters already carry (still above the base style)."""
+        n = len(self.chars)
+        if start < 0:
+            start = n + start
+        if end is None:
+            end = n
+        if end < 0:
+            end = n + end
+        if start >= n or end <= start:
+            return self
+        fs = freeze(style)
+        chars = list(self.chars)
+        for i in range(max(0, start), min(n, end)):
+            c, o = chars[i]
+            if o is not None:
+                chars[i] = (c, (fs,) + o)
+        return self.with_chars(chars)
+
+    def copy_styles(self, other):
+        """The styles `other` applied to its characters (not its base style) go on top of this value's, in other's order.
+        Same length required.  A character whose style is not pinned down on either side stays not pinned down."""
+        if len(other.chars) != len(self.chars):
+            raise ValueError("copy_styles: lengths differ")
+        chars = []
+        for (c, o), (_, oo) in zip(self.chars, other.chars):
+            chars.append((c, None if o is None or oo is None else o + oo))
+        return self.with_chars(chars)
+
     def cut_candidates(self, n):
         """Possible results of 'resize to n cells by cropping' (cell-aware): list of char lists.
         The kept part is a prefix whose width is n, or n-1 followed by one space that stands for the
